@@ -137,7 +137,8 @@ def random_blocks(rnd, tier):
 def race_stage(work, tier, seed):
     """(D) wire-level stress with the race detector; returns list of distinct race reports (hagall frames)"""
     env = dict(os.environ, **GOENV)
-    hdir = os.path.join(VERIF, "harness")
+    work.build_harness()
+    hdir = work.hsrc
     out = work.path("bin", "harness-race")
     r = subprocess.run(["go", "build", "-race", "-tags", "verif", "-overlay", work.overlay, "-o", out, "."], cwd=hdir, env=env,
                        capture_output=True, text=True)
